@@ -109,6 +109,11 @@ def in_set(p, x, y): return p in {Point(x, y), Point(0, 0)}
 def build(x, y): return [Point(x, y).x, Point3(x, y, 1).z, isinstance(Point3(x, y, 2), Point)]
 
 
+def scale_or(base):
+    def f(x, scale=2): return [x, base, 'unset' if scale is None else scale * x]
+    return f
+
+
 class Feed(object):
     """a class that keeps a process-local resource as a class attribute (a generator here; sockets, locks, open files are
     the usual ones): the class cannot be encoded by value, its instances and methods travel by reference"""
@@ -119,7 +124,7 @@ class Feed(object):
 
 
 def gen_case(rng):
-    k = rng.randrange(21)
+    k = rng.randrange(23)
     n, m = rng.randint(0, 9), rng.randint(-5, 5)
     if k == 0:  return 'add',       add, (n, m), {}
     if k == 1:  return 'add_kw',    add, (n,), {'b': m}
@@ -138,6 +143,7 @@ def gen_case(rng):
     if k == 14: return 'hash_set',  in_set, (Point(n, m), n, rng.choice([m, m + 1])), {}
     if k == 16: return 'decorated', tripled_plus_one, (n,), {}
     if k == 17: return 'decorated_clamp', minus_four, (n,), {}
+    if k in (21, 22): return 'kwarg_none', scale_or(n), (m,), {'scale': rng.choice([None, None, 3])}   # None is a value like any other
     if k == 18: return 'resource_class_instance', Feed(m), (n,), {}
     if k in (19, 20): return 'resource_class_method', Feed(m).plus, (n,), {}
     return 'construct', build, (n, m), {}
